@@ -597,6 +597,19 @@ def compile_oracle(ctx, r, thorough):
     specs = read_corpus()[0] + corpus_specs(thorough) + gen_specs(r, thorough)
     with pool() as ex:
         results = list(ex.map(co.job, specs))
+    # /repo is a shared working tree: a worker that imports shroud while another agent is writing a module sees a half
+    # written file.  That is not a verdict about the property: such jobs are repeated (twice at most).
+    racy = re.compile(r"^(AttributeError: module 'shroud|ImportError|ModuleNotFoundError|SyntaxError|IndentationError)")
+    for _attempt in range(2):
+        again = [i for i, res in enumerate(results) if res["exc"] and racy.match(res["exc"])]
+        if not again:
+            break
+        import time
+        time.sleep(2)
+        with pool() as ex:
+            for i, res in zip(again, ex.map(co.job, [specs[i] for i in again])):
+                results[i] = res
+        ctx.note("jobs_repeated_after_import_race", len(again))
     stats, skipped, excl, rejected = {}, {}, {}, {}
     ndup = []
     for spec, res in zip(specs, results):
